@@ -14,7 +14,7 @@ func init() {
 		Decides: "the lock discipline that linearizability of these types rests on, not linearizability itself: " +
 			"(R32.1) in every method of Locked, SingleLockedMap and ShardedMap the guarded state (value/isempty, m, sharded) is read with the type's RWMutex held at least shared and written (stored, map-updated, deleted from, cleared, slot-assigned) with it held exclusively; user callbacks run with the lock held; ShardedMap.length is touched only through sync/atomic; " +
 			"(R32.2) the length bookkeeping follows the shard's own answer: +1 only where the shard reported added/created, -1 only where it reported removed, never on an error; " +
-			"(R32.3) value and emptiness / presence change together: Locked stores value and isempty at the same places and only on the callback's success; a locked map writes an entry only on the callback's success and deletes only a found key; (R32.4) no update of ShardedMap's key counter can be overtaken by the reset in Empty/Close (updates happen with the map lock held) — violated today, known finding.",
+			"(R32.3) value and emptiness / presence change together: Locked stores value and isempty at the same places and only on the callback's success; a locked map writes an entry only on the callback's success and deletes only a found key; (R32.4) ShardedMap.Len() is the sum of its shards' counts taken with the map lock held — or, if a key counter is kept, no update of it can be overtaken by the reset in Empty/Close (updates happen with the map lock held).",
 		NotDecided: "linearizability of histories; fairness.",
 		Run:        runC32,
 	})
@@ -91,7 +91,7 @@ func runC32(c *Ctx) {
 		if fn.Parent() != nil {
 			continue
 		}
-		adds := c.CallsD(fn, "atomic.AddInt64(&l.length, *)")
+		adds := c.CallsD(fn, "atomic.AddInt64(&l.*, *)")
 		if len(adds) == 0 {
 			continue
 		}
@@ -102,25 +102,39 @@ func runC32(c *Ctx) {
 		}
 	}
 	sort.Strings(outside)
-	c.Floor(nil, "counter updates of ShardedMap", nAdd, 1)
-	// the counter is bookkeeping for Len() only: no operation decides anything by reading it (it lags
-	// behind the shards while an insert is in flight)
-	nLoad := 0
-	for _, fn := range c.FuncsWithPrefix("util.(*ShardedMap[K,V]).") {
-		for _, in := range c.CallsD(fn, "atomic.LoadInt64(&l.length)") {
-			nLoad++
-			c.Report(fn, "the key counter is read only by Len()", in.Pos(), c.FuncKey(fn) == "util.(*ShardedMap[K,V]).Len", "")
+	c.floors["R32.4 counter updates of ShardedMap (0: Len() counts the shards)"] = [2]int{0, nAdd}
+	if nAdd == 0 {
+		// no counter: Len() is the sum of the shards' own (locked) counts, taken with the map lock held so
+		// that the shard list does not change under it
+		if fn := c.Need("util.(*ShardedMap[K,V]).Len"); fn != nil {
+			lens := c.CallsD(fn, "l.sharded[ι].Len()")
+			c.Held(fn, nil, "Len counts the shards with the map lock held", lens, 1, "&l.l", LR)
+			c.ForEach(fn, "Len counts every shard (a missing shard holds nothing)", "(ι < len(l.sharded))", 1, GCalled("l.sharded[ι].Len()"), GNil("l.sharded[ι]"))
+			for _, r := range Returns(fn) {
+				d := c.D(RetVal(r, 0))
+				c.Report(fn, "Len answers the sum over the shards", c.InstrPos(r), strings.Contains(d, "↺ + l.sharded[ι].Len()") && strings.Contains(d, "|0|"), d)
+			}
 		}
-	}
-	c.Floor(nil, "reads of the key counter", nLoad, 1)
-	if anchor := c.Need("util.(*ShardedMap[K,V]).Empty"); anchor != nil {
-		resets := c.CallsD(anchor, "atomic.StoreInt64(&l.length, 0)")
-		c.Held(anchor, nil, "Empty resets the key counter with the map lock held exclusively", resets, 1, "&l.l", LW)
-		detail := "no counter update can be overtaken by the reset of Empty/Close"
-		if len(outside) > 0 {
-			detail += "; updated outside the map lock in: " + strings.Join(outside, ", ")
+	} else {
+		// the counter is bookkeeping for Len() only: no operation decides anything by reading it (it lags
+		// behind the shards while an insert is in flight)
+		nLoad := 0
+		for _, fn := range c.FuncsWithPrefix("util.(*ShardedMap[K,V]).") {
+			for _, in := range c.CallsD(fn, "atomic.LoadInt64(&l.*)") {
+				nLoad++
+				c.Report(fn, "the key counter is read only by Len()", in.Pos(), c.FuncKey(fn) == "util.(*ShardedMap[K,V]).Len", "")
+			}
 		}
-		c.Report(anchor, detail, anchor.Pos(), len(outside) == 0, "a counter update made after the shard operation without the map lock can follow the reset of a concurrent Empty()/Close()")
+		c.Floor(nil, "reads of the key counter", nLoad, 1)
+		if anchor := c.Need("util.(*ShardedMap[K,V]).Empty"); anchor != nil {
+			resets := c.CallsD(anchor, "atomic.StoreInt64(&l.*, 0)")
+			c.Held(anchor, nil, "Empty resets the key counter with the map lock held exclusively", resets, 1, "&l.l", LW)
+			detail := "no counter update can be overtaken by the reset of Empty/Close"
+			if len(outside) > 0 {
+				detail += "; updated outside the map lock in: " + strings.Join(outside, ", ")
+			}
+			c.Report(anchor, detail, anchor.Pos(), len(outside) == 0, "a counter update made after the shard operation without the map lock can follow the reset of a concurrent Empty()/Close()")
+		}
 	}
 	// R32.1 --------------------------------------------------------------------------------------
 	c.Rule("R32.1", "LockHeld")
@@ -196,9 +210,12 @@ func runC32(c *Ctx) {
 			}
 		}
 	}
-	c.Floor(nil, "uses of ShardedMap.length", nLen, 8)
+	if nAdd > 0 {
+		c.Floor(nil, "uses of ShardedMap.length", nLen, 8)
+	}
 	// R32.2 --------------------------------------------------------------------------------------
 	c.Rule("R32.2", "MustPass")
+	counterRules := nAdd > 0 // the rules on the key counter apply only while ShardedMap keeps one (R32.4)
 	for _, t := range []struct {
 		m      string
 		delta  string
@@ -212,7 +229,7 @@ func runC32(c *Ctx) {
 		{"Remove", "-1", []Gate{GTrue("l.loadItem(k)#0.Remove(k, f)#0")}, false},
 	} {
 		fn := c.Need("util.(*ShardedMap[K,V])." + t.m)
-		if fn == nil {
+		if fn == nil || !counterRules {
 			continue
 		}
 		adds := c.CallsD(fn, "atomic.AddInt64(&l.length, "+t.delta+")")
@@ -225,16 +242,16 @@ func runC32(c *Ctx) {
 		{"Remove", "l.loadItem(k)#0.Remove(k, f)#1"}, {"SetOrRemove", "l.newItem(k)#0.SetOrRemove(k, f)#3"},
 	} {
 		fn := c.Need("util.(*ShardedMap[K,V])." + t[0])
-		if fn == nil {
+		if fn == nil || !counterRules {
 			continue
 		}
 		c.MP(fn, t[0]+": the counter moves only if the shard operation did not fail", c.CallsD(fn, "atomic.AddInt64(&l.length, *)"), 1, GNil(t[1]))
 	}
-	if fn := c.Need("util.(*ShardedMap[K,V]).SetOrRemove"); fn != nil {
+	if fn := c.Need("util.(*ShardedMap[K,V]).SetOrRemove"); fn != nil && counterRules {
 		c.MP(fn, "SetOrRemove: +1 only where the shard reported created", c.CallsD(fn, "atomic.AddInt64(&l.length, 1)"), 1, GTrue("l.newItem(k)#0.SetOrRemove(k, f)#1"))
 		c.MP(fn, "SetOrRemove: -1 only where the shard reported removed", c.CallsD(fn, "atomic.AddInt64(&l.length, -1)"), 1, GTrue("l.newItem(k)#0.SetOrRemove(k, f)#2"))
 	}
-	if fn := c.Need("util.(*ShardedMap[K,V]).GetOrCreate"); fn != nil {
+	if fn := c.Need("util.(*ShardedMap[K,V]).GetOrCreate"); fn != nil && counterRules {
 		if cl := c.ClosureWithStore(fn, "&var:created"); cl != nil {
 			c.StoredIs(cl, "GetOrCreate: `created` is what the shard told the callback", c.StoresD(cl, "&var:created"), 1, "c")
 		} else {
@@ -242,7 +259,7 @@ func runC32(c *Ctx) {
 		}
 	}
 	for _, m := range []string{"Close", "Empty"} {
-		if fn := c.Need("util.(*ShardedMap[K,V])." + m); fn != nil {
+		if fn := c.Need("util.(*ShardedMap[K,V])." + m); fn != nil && counterRules {
 			c.Held(fn, nil, m+": the counter is reset while the shards are locked out", c.CallsD(fn, "atomic.StoreInt64(&l.length, 0)"), 1, "&l.l", LW)
 		}
 	}
